@@ -1,5 +1,213 @@
-import Aiortc.Model.Sctp.Endpoint
-/-! # C13 (placeholder while the theorems are being written) -/
+import Aiortc.Lemmas.SctpLifeHandle
+import Aiortc.Lemmas.SctpBufHandle
+import Aiortc.Lemmas.SctpClose
+import Aiortc.Lemmas.SctpIds
+import Aiortc.Lemmas.SctpDcep
+import Aiortc.Lemmas.SctpUtf8
+import Aiortc.Lemmas.SctpNeg
+import Aiortc.Lemmas.SctpOpen
+/-!
+# C13 — data channel lifecycle: faithful open, forward-only states, exact bufferedAmount
+
+All statements are about the endpoint automaton `Aiortc.Sctp.step` (`Model/Sctp/Endpoint.lean`), the
+executable model of `RTCSctpTransport` + `RTCDataChannel` that `./check C13` replays against two real
+endpoints step by step.  They hold for EVERY endpoint state satisfying the stated invariant, every clock
+value and every input (datagram bytes, timer, task, application call) - hence for all programs of
+create/send/close operations and all datagram fault schedules; the invariants hold in the initial state
+and are preserved by every step (`lifeInv_init`, `ready_forward`; `bufInv_init`, `buffered_exact`).
+
+Channel objects are identified by their index `i` in `Ep.chans` (creation order); `ready` encodes
+`readyState` as 0 connecting < 1 open < 2 closing < 3 closed.
+-/
 namespace Aiortc.Props.C13
+open Aiortc Aiortc.Gen Aiortc.Sctp Aiortc.Sctp.Wire
+
+/-! ## constants of the property text / wire format -/
+
 theorem userdata_max_const : Aiortc.Gen.USERDATA_MAX_LENGTH = 1200 := by decide
+theorem dcep_const : WEBRTC_DCEP = 50 ∧ DATA_CHANNEL_OPEN = 3 ∧ DATA_CHANNEL_ACK = 2 ∧
+    DATA_CHANNEL_RELIABLE = 0 := by decide
+theorem ppid_const : WEBRTC_STRING = 51 ∧ WEBRTC_BINARY = 53 ∧ WEBRTC_STRING_EMPTY = 56 ∧
+    WEBRTC_BINARY_EMPTY = 57 := by decide
+
+/-! ## (a) faithful open -/
+
+/-- **DCEP round trip.** For every label and protocol that is valid UTF-8 and shorter than 65536 bytes,
+every `ordered` flag and every reliability setting (at most one of maxRetransmits/maxPacketLifeTime,
+below 2^32), `_data_channel_open`'s message parsed by the OPEN branch of `_data_channel_receive` gives
+back exactly label, protocol, ordered, maxRetransmits, maxPacketLifeTime. -/
+theorem dcep_roundtrip (c : Chan)
+    (hl : c.label.length < 65536) (hp : c.protocol.length < 65536)
+    (hul : utf8Valid c.label = true) (hup : utf8Valid c.protocol = true)
+    (hone : c.maxRetransmits = none ∨ c.maxPacketLifeTime = none)
+    (hr : ∀ r, c.maxRetransmits = some r → r < 4294967296)
+    (ht : ∀ r, c.maxPacketLifeTime = some r → r < 4294967296) :
+    ∃ d, encodeOpen c = .ok d ∧ decodeOpen d = some c.openParams :=
+  decodeOpen_encodeOpen c hl hp hul hup hone hr ht
+
+def exampleChan : Chan :=
+  { id := none, label := [0x68, 0xC3, 0xA9], protocol := [0xF0, 0x9F, 0x99, 0x82],
+    ordered := false, maxRetransmits := some 3 }
+
+example : ∃ d, encodeOpen exampleChan = .ok d ∧ decodeOpen d = some
+      ⟨[0x68, 0xC3, 0xA9], [0xF0, 0x9F, 0x99, 0x82], false, some 3, none⟩ :=
+  dcep_roundtrip exampleChan (by decide) (by decide) (by decide) (by decide) (Or.inr rfl)
+    (by intro r h; cases h; decide) (by intro r h; cases h)
+
+/-- `bytes.decode("utf8")` as modelled by `utf8Valid` accepts exactly the concatenations of UTF-8 encoded
+Unicode scalar values (Unicode Table 3-6/3-7: no overlong forms, no surrogates, nothing above U+10FFFF):
+any Unicode label/protocol is accepted, and nothing else is. -/
+theorem utf8_exact (b : Bytes) :
+    utf8Valid b = true ↔ ∃ cps : List Nat, (∀ n ∈ cps, Scalar n) ∧ b = cps.flatMap encodeCp :=
+  utf8Valid_iff b
+
+example : utf8Valid ([0x41, 0x7FF, 0x800, 0xFFFF, 0x10000, 0x10FFFF].flatMap encodeCp) = true := by decide
+example : utf8Valid [0xC0, 0x80] = false ∧ utf8Valid [0xED, 0xA0, 0x80] = false ∧
+    utf8Valid [0xF4, 0x90, 0x80, 0x80] = false ∧ utf8Valid [0xE2, 0x82] = false := by decide
+
+/-- **The `datachannel` event mirrors the opener.** When a DATA_CHANNEL_OPEN that decodes to `p` arrives on a
+stream id `sid` that is not in use, the endpoint creates one channel object with exactly the parameters
+`p` and id `sid`, not negotiated, and (while the transport still has listeners) emits the `datachannel`
+event for it. -/
+theorem open_announces (sid : Nat) (data : Bytes) (p : OpenParams) (hp : decodeOpen data = some p)
+    (s : St) (hI : LifeInv s.1) (hfree : dictGet s.1.dataChannels sid = none) :
+    WP (dcReceive sid WEBRTC_DCEP data) (OpenPost sid p s) s :=
+  dcReceive_open sid data p hp s hI hfree
+
+/-! ## (b) automatically chosen ids -/
+
+/-- The id `_data_channel_flush` chooses for a channel without id has the parity of the allocator's start
+value (`_data_channel_id`: 0 on the side with `is_server`, 1 on the other) and is not registered. -/
+theorem ids_disjoint (e : Ep) (start : Nat) :
+    flushLoop.pick e (e.dataChannels.length + 1) start % 2 = start % 2 ∧
+    dictGet e.dataChannels (flushLoop.pick e (e.dataChannels.length + 1) start) = none :=
+  ⟨pick_parity e _ start, pick_free e start⟩
+
+/-- Whatever the step: an id that gets *assigned* to an existing channel object (it had none before) is even
+on the server side and odd on the client side; an id once set never changes. -/
+theorem auto_id_parity (e : Ep) (now : Int) (inp : Input) (hI : LifeInv e)
+    (i : Nat) (c : Chan) (hc : e.chans[i]? = some c) :
+    ∃ c', (step e now inp).1.chans[i]? = some c' ∧
+      (∀ s, c.id = some s → c'.id = some s) ∧
+      (c.id = none → ∀ s, c'.id = some s → s % 2 = (if e.isServer then 0 else 1)) := by
+  obtain ⟨c', hc', hst⟩ := (step_forward e now inp hI).2.2.1 i c hc
+  exact ⟨c', hc', hst.id_keep, hst.id_auto⟩
+
+/-- the two sides of an association have different roles, so their automatic ids never collide -/
+theorem auto_ids_never_collide (eA eB : Ep) (hrole : eA.isServer ≠ eB.isServer) (a b : Nat)
+    (ha : a % 2 = (if eA.isServer then 0 else 1)) (hb : b % 2 = (if eB.isServer then 0 else 1)) : a ≠ b := by
+  intro hab
+  subst hab
+  cases hA : eA.isServer <;> cases hB : eB.isServer <;> simp_all
+
+/-! ## (c) `readyState` only moves forward; at most one `open` / `close` / `datachannel` event -/
+
+theorem lifeInv_init (isServer : Bool) (tag tsn : Nat) : LifeInv (Ep.init isServer tag tsn) :=
+  ⟨(by intro c hc; cases hc), (by intro d hd; cases hd)⟩
+
+/-- **Forward only.** For every state, clock and input: every channel object is still there after the step
+(channels are only appended), its `ready` did not decrease and stays within 0..3, and its label, protocol,
+ordered flag, reliability settings and `negotiated` flag are unchanged.  The invariant is preserved. -/
+theorem ready_forward (e : Ep) (now : Int) (inp : Input) (hI : LifeInv e) :
+    LifeInv (step e now inp).1 ∧
+    e.chans.length ≤ (step e now inp).1.chans.length ∧
+    ∀ (i : Nat) c, e.chans[i]? = some c → ∃ c', (step e now inp).1.chans[i]? = some c' ∧
+      c.ready ≤ c'.ready ∧ c'.ready ≤ 3 ∧ c'.label = c.label ∧ c'.protocol = c.protocol ∧
+      c'.ordered = c.ordered ∧ c'.maxRetransmits = c.maxRetransmits ∧
+      c'.maxPacketLifeTime = c.maxPacketLifeTime ∧ c'.negotiated = c.negotiated := by
+  have h := step_forward e now inp hI
+  refine ⟨h.1, FwdRel.length_le h.2, ?_⟩
+  intro i c hc
+  obtain ⟨c', hc', hst⟩ := h.2.2.1 i c hc
+  exact ⟨c', hc', hst.ready, h.1.1 c' (List.mem_of_getElem? hc'), hst.label, hst.protocol, hst.ordered,
+    hst.maxRetransmits, hst.maxPacketLifeTime, hst.negotiated⟩
+
+/-- the same over arbitrary input sequences (any two points of a run are related this way, because the
+statement holds from every intermediate state) -/
+theorem ready_forward_run (e : Ep) (ins : List (Int × Input)) (hI : LifeInv e) :
+    LifeInv (runSteps e ins).1 ∧
+    ∀ (i : Nat) c, e.chans[i]? = some c → ∃ c', (runSteps e ins).1.chans[i]? = some c' ∧
+      c.ready ≤ c'.ready ∧ c'.ready ≤ 3 := by
+  have h := run_forward e ins hI
+  refine ⟨h.1, ?_⟩
+  intro i c hc
+  obtain ⟨c', hc', hst⟩ := h.2.2.1 i c hc
+  exact ⟨c', hc', hst.ready, h.1.1 c' (List.mem_of_getElem? hc')⟩
+
+/-- **Events only on change.** If a step emits `open` for channel `i`, the channel was `connecting` (or did
+not exist) before and is at least `open` after; if it emits `close`, the channel was not closed before and is
+closed after; a `datachannel` event is only emitted for a channel object created in that very step. -/
+theorem events_on_change (e : Ep) (now : Int) (inp : Input) (hI : LifeInv e) (k : Kind) (i : Nat)
+    (hev : 0 < (step e now inp).2.countP (Kind.ev k i)) :
+    (step e now inp).2.countP (Kind.ev k i) = 1 ∧ bud k e i = 1 ∧ bud k (step e now inp).1 i = 0 := by
+  have h := (step_forward e now inp hI).2.2.2 k i
+  simp only [List.countP_nil] at h
+  have hb : bud k e i ≤ 1 := by unfold bud; split <;> (try split) <;> omega
+  omega
+
+/-- **At most one `open`, one `close`, one `datachannel` event per channel object** over every run from the
+initial state. -/
+theorem at_most_one_event (isServer : Bool) (tag tsn : Nat) (ins : List (Int × Input)) (k : Kind) (i : Nat) :
+    (runSteps (Ep.init isServer tag tsn) ins).2.countP (Kind.ev k i) ≤ 1 := by
+  have h := (run_forward _ ins (lifeInv_init isServer tag tsn)).2.2.2 k i
+  simp only [List.countP_nil] at h
+  have hb : bud k (Ep.init isServer tag tsn) i ≤ 1 := by unfold bud; split <;> (try split) <;> omega
+  omega
+
+example : Kind.ev .opened 3 (.evOpen 3) = true ∧ Kind.ev .closed 3 (.evClose 3) = true ∧
+    Kind.ev .announced 3 (.evChannel 3) = true ∧ Kind.ev .opened 3 (.evOpen 4) = false := by decide
+
+/-! ## (d) `bufferedAmount` is exact -/
+
+theorem bufInv_init (isServer : Bool) (tag tsn : Nat) : BufInv (Ep.init isServer tag tsn) :=
+  ⟨(by intro x hx; cases hx), (by intro i c hc; simp [Ep.init] at hc)⟩
+
+/-- **Exact accounting.** `bufferedAmount` of every channel that is not closed equals the number of user-data
+bytes queued for it in `_data_channel_queue` (accepted by `send()`, not yet handed to `_send`); the
+invariant is preserved by every step in which no exception escapes a handler. -/
+theorem buffered_exact (e : Ep) (now : Int) (inp : Input) (hI : BufInv e)
+    (hok : NoCrash (step e now inp).2) : BufInv (step e now inp).1 :=
+  step_buffered e now inp hI hok
+
+/-- never negative, and zero once nothing is queued for the channel -/
+theorem buffered_nonneg_drained (e : Ep) (hI : BufInv e) (i : Nat) (c : Chan) (hc : e.chans[i]? = some c)
+    (h3 : c.ready ≠ 3) :
+    c.buffered = qsum e.dcQueue i ∧ 0 ≤ c.buffered ∧ ((∀ x ∈ e.dcQueue, x.1 ≠ i) → c.buffered = 0) :=
+  ⟨hI.2 i c hc h3, hI.nonneg hc h3, hI.drained hc h3⟩
+
+/-- `send()` and the flush loop separately (the two places that move `bufferedAmount`) -/
+theorem buffered_send_flush : (∀ i isStr data, Pres bufSpec (handle (.send i isStr data))) ∧
+    (∀ fuel, Pres bufSpec (flushLoop fuel)) ∧ Pres bufSpec flush :=
+  ⟨buf_send, buf_flushLoop, buf_flush⟩
+
+/-- **`bufferedamountlow` fires exactly on downward crossings**: `_addBufferedAmount(amount)` adds the amount
+and emits the event iff the amount was above the threshold and is now at most the threshold (and the channel
+can have listeners). -/
+theorem evLow_exact (i : Nat) (amount : Int) (s : St) (c : Chan) (hc : s.1.chans[i]? = some c) {Q}
+    (h : Q (.ok ())
+      ({ s.1 with chans := s.1.chans.set i { c with buffered := c.buffered + amount } },
+        s.2 ++ (if (c.buffered > c.threshold ∧ c.buffered + amount ≤ c.threshold) ∧ c.silent = false ∧ c.ready ≠ 3
+                then [Out.evLow i] else []))) :
+    WP (addBuffered i amount) Q s :=
+  wp_addBuffered i amount s c hc h
+
+/-! ## (e) when the association ends every channel closes -/
+
+/-- After `_set_state(CLOSED)` (abort, shutdown, `stop()`, T1/T2 giving up) every channel object registered in
+`_data_channels` or still waiting in `_data_channel_queue` is closed and both containers are empty. -/
+theorem closed_all (s : St) (hnd : (s.1.dataChannels.map (·.1)).Nodup) :
+    WP (setState .closed) (ClosedAllPost s) s :=
+  Aiortc.Sctp.closed_all s hnd
+
+example : (([(1, 0), (3, 1)] : List (Nat × Nat)).map (·.1)).Nodup := by decide
+
+/-! ## (f) negotiated channels pair up by id -/
+
+/-- `RTCDataChannel(negotiated=True, id=v)` registers exactly id `v` for the new channel object (open at once if
+the association is established, connecting otherwise), or raises `ValueError` (id missing, outside 0..65534,
+or already registered) and leaves the transport unchanged. -/
+theorem negotiated_exact_id (p : CreateParams) (hneg : p.negotiated = true) (e : Ep) (l : List Out) :
+    WP (createChannel p) (NegPost p e l) (e, l) :=
+  createChannel_negotiated p hneg e l
+
 end Aiortc.Props.C13
